@@ -373,6 +373,7 @@ theorem opNewEntity_rel_callbacks (hro : ReadOnly run S rec) (run0 : ProbeRunner
     (hreg : ∀ (c : Comp), c ∈ ids → c < w.kinds.length)
     (hnd : (rels.map (·.comp)).Nodup) (hin : ∀ (r : RelID), r ∈ rels → r.comp ∈ ids)
     (hrc : ∀ (r : RelID), r ∈ rels → w.isRelComp r.comp = true)
+    (htin : ∀ (r : RelID), r ∈ rels → r.target.id < w.pool.ents.length)
     (hfew : w.tables.length < maxU32) (hrows : w.entities.length + 1 < 2 ^ 32)
     {e : Ent} {w0 : World} (h0 : opNewEntity run0 p ids vals rels w.noObs = .ok e w0) :
     NewRelPost w.noObs fl rels e w0 ∧
@@ -381,8 +382,8 @@ theorem opNewEntity_rel_callbacks (hro : ReadOnly run S rec) (run0 : ProbeRunner
       opNewEntity run p ids vals rels w = .ok e (w0.relog w.obs
         (addRounds rec w.obs e Ev.onCreateEntity (.entity (Mask.ofList ids)) rels
           (.entityRel (Mask.ofList ids)) ((seenAfter p w1 e vals).relog w.obs w.log) ++ w.log)) := by
-  have post := opNewEntity_rel_spec run0 p h.tinv hl (noObs_hasObservers w) hreg hnd hin hrc hfew
-    hrows h0
+  have post := opNewEntity_rel_spec run0 p h.tinv hl (noObs_hasObservers w) hreg hnd hin hrc htin
+    hfew hrows h0
   obtain ⟨mask, w1, hc, hw0, hop⟩ := opNewEntity_rel_transfer_ok hro run0 p ids vals rels w hs h.obs h0
   have hm := newEntityCore_mask h.tinv hreg hnd hin hc
   subst hm
@@ -391,7 +392,8 @@ theorem opNewEntity_rel_callbacks (hro : ReadOnly run S rec) (run0 : ProbeRunner
 /-- under the invariant the masks `World.add` returns are the entity's mask and that mask with
     the added components -/
 theorem addCore_masks {w : World} {fl : List Nat} (h : TInv w fl) {e : Ent} (h2 : 2 ≤ e.id)
-    (hnf : e.id ∉ fl) (ha : w.alive e = true) {ids : List Comp} {rels : List RelID}
+    (hnf : e.id ∉ fl) (ha : w.alive e = true) (hsl : e.id < w.pool.ents.length)
+    {ids : List Comp} {rels : List RelID}
     (hreg : ∀ (c : Comp), c ∈ ids → c < w.kinds.length)
     (hnd : (rels.map (·.comp)).Nodup) (hin : ∀ (r : RelID), r ∈ rels → r.comp ∈ ids)
     {old new : Mask} {w1 : World} (hcore : addCore e ids rels w = .ok (old, new) w1) :
@@ -400,7 +402,7 @@ theorem addCore_masks {w : World} {fl : List Nat} (h : TInv w fl) {e : Ent} (h2 
     cases hh : w.isLocked with
     | false => rfl
     | true => rw [addCore_locked w hh] at hcore; cases hcore
-  obtain ⟨oldT, row, he, htm, _⟩ := h.link.live_entry h2 hnf ha
+  obtain ⟨oldT, row, he, htm, _⟩ := h.link.live_entry h2 hnf ha hsl
   have hix := index_of_get he
   have hI := h.link.idx
   obtain ⟨hT, hrow, hid⟩ := hI.indexed he htm
@@ -454,10 +456,12 @@ theorem addCore_masks {w : World} {fl : List Nat} (h : TInv w fl) {e : Ent} (h2 
 theorem opAdd_rel_callbacks (hro : ReadOnly run S rec) (run0 : ProbeRunner) (p : Path)
     {w : World} {fl : List Nat} (hs : ScriptsIn w.obs S) (h : TInvObs w fl)
     (hl : w.isLocked = false) {e : Ent} (h2 : 2 ≤ e.id) (hnf : e.id ∉ fl) (ha : w.alive e = true)
+    (hsl : e.id < w.pool.ents.length)
     {ids : List Comp} {vals : List (Comp × Val)} {rels : List RelID}
     (hreg : ∀ (c : Comp), c ∈ ids → c < w.kinds.length)
     (hnd : (rels.map (·.comp)).Nodup) (hin : ∀ (r : RelID), r ∈ rels → r.comp ∈ ids)
     (hrc : ∀ (r : RelID), r ∈ rels → w.isRelComp r.comp = true)
+    (htin : ∀ (r : RelID), r ∈ rels → r.target.id < w.pool.ents.length)
     (hfew : w.tables.length < maxU32) (hrows : w.entities.length + 1 < 2 ^ 32)
     {w0 : World} (h0 : opAdd run0 p e ids vals rels w.noObs = .ok () w0) :
     AddRelPost w.noObs fl e ids vals rels w0 ∧
@@ -469,10 +473,10 @@ theorem opAdd_rel_callbacks (hro : ReadOnly run S rec) (run0 : ProbeRunner) (p :
           (.add (w.maskOf e) (ids.foldl Mask.set (w.maskOf e))) rels
           (.add (w.maskOf e) (ids.foldl Mask.set (w.maskOf e)))
           ((seenAfter p w1 e vals).relog w.obs w.log) ++ w.log)) := by
-  have post := opAdd_rel_spec run0 p h.tinv hl (noObs_hasObservers w) h2 hnf ha hreg hnd hin hrc
-    hfew hrows h0
+  have post := opAdd_rel_spec run0 p h.tinv hl (noObs_hasObservers w) h2 hnf ha hsl hreg hnd hin hrc
+    htin hfew hrows h0
   obtain ⟨old, new, w1, hc, hw0, hop⟩ := opAdd_rel_transfer_ok hro run0 p e ids vals rels w hs h.obs h0
-  obtain ⟨e1, e2⟩ := addCore_masks h.tinv h2 hnf ha hreg hnd hin hc
+  obtain ⟨e1, e2⟩ := addCore_masks h.tinv h2 hnf ha hsl hreg hnd hin hc
   have e1' : old = w.maskOf e := e1
   have e2' : new = ids.foldl Mask.set (w.maskOf e) := e2
   subst e1' e2'
@@ -498,6 +502,7 @@ theorem newEntityRel_cbs {w : World} {fl : List Nat} (st : SettingRel run S rec 
     (hreg : ∀ (c : Comp), c ∈ ids → c < w.kinds.length)
     (hnd : (rels.map (·.comp)).Nodup) (hin : ∀ (r : RelID), r ∈ rels → r.comp ∈ ids)
     (hrc : ∀ (r : RelID), r ∈ rels → w.isRelComp r.comp = true)
+    (htin : ∀ (r : RelID), r ∈ rels → r.target.id < w.pool.ents.length)
     (hfew : w.tables.length < maxU32) (hrows : w.entities.length + 1 < 2 ^ 32)
     {e : Ent} {w0 : World} (h0 : opNewEntity run0 p ids vals rels w.noObs = .ok e w0) :
     NewRelPost w.noObs fl rels e w0 ∧
@@ -508,7 +513,7 @@ theorem newEntityRel_cbs {w : World} {fl : List Nat} (st : SettingRel run S rec 
         (((firing w.obs Ev.onCreateEntity (.entity (Mask.ofList ids))).map fun l => (l, e)).reverse
           ++ cbsOf w.log) := by
   obtain ⟨post, w1, _, _, hop⟩ := opNewEntity_rel_callbacks st.ro run0 p st.scripts st.inv hl hreg
-    hnd hin hrc hfew hrows h0
+    hnd hin hrc htin hfew hrows h0
   exact ⟨post, _, hop, frameOf_relog _ _ _, rfl, cbsOf_addRounds st.noCb _ _ _ _ _ _ _ _⟩
 
 /-- **C08 for `Add(e, ids…, rels…)`**: the `cb` records appended are — oldest first — `(l, e)` for
@@ -520,6 +525,7 @@ theorem addRel_cbs {w : World} {fl : List Nat} (st : SettingRel run S rec w fl)
     (hreg : ∀ (c : Comp), c ∈ ids → c < w.kinds.length)
     (hnd : (rels.map (·.comp)).Nodup) (hin : ∀ (r : RelID), r ∈ rels → r.comp ∈ ids)
     (hrc : ∀ (r : RelID), r ∈ rels → w.isRelComp r.comp = true)
+    (htin : ∀ (r : RelID), r ∈ rels → r.target.id < w.pool.ents.length)
     (hfew : w.tables.length < maxU32) (hrows : w.entities.length + 1 < 2 ^ 32)
     {w0 : World} (h0 : opAdd run0 p e ids vals rels w.noObs = .ok () w0) :
     AddRelPost w.noObs fl e ids vals rels w0 ∧
@@ -532,7 +538,7 @@ theorem addRel_cbs {w : World} {fl : List Nat} (st : SettingRel run S rec w fl)
             (.add (w.maskOf e) (ids.foldl Mask.set (w.maskOf e)))).map fun l => (l, e)).reverse
           ++ cbsOf w.log) := by
   obtain ⟨post, w1, _, _, hop⟩ := opAdd_rel_callbacks st.ro run0 p st.scripts st.inv hl he.ge2
-    he.notFree he.alive hreg hnd hin hrc hfew hrows h0
+    he.notFree he.alive he.inPool hreg hnd hin hrc htin hfew hrows h0
   exact ⟨post, _, hop, frameOf_relog _ _ _, rfl, cbsOf_addRounds st.noCb _ _ _ _ _ _ _ _⟩
 
 end Ops
